@@ -133,9 +133,54 @@ def big_image_part(res, tier):
                         f"then {raised[0][0]!r} from the node: processing raised {raised[0][1]}"})
 
 
+def mqtt_deliveries_part(res):
+    """What the network hands an MQTT gateway is a topic and a payload, not a line.  Topics that are cut short,
+    too long, empty, all separators, or somebody else's — under an empty, a one-level and a nested in-prefix —
+    are delivered to both MQTT classes through `transport.recv`: it never raises, and only the gateway's own
+    five-level topics leave a job for the pump (which topics those are is C17's theorem; here: no crash, and
+    no job for a topic with the wrong number of levels)."""
+    from .c17 import make_real
+    levels = ["1", "255", "3", "0", "11"]
+    for prefix in ("", "in", "a/b", "mygateway1-out"):
+        topics = []
+        for k in range(0, 8):
+            body = "/".join((levels * 2)[:k])
+            topics += [prefix + ("/" + body if k else ""), prefix + "/" + body + "/", body, "/" + body]
+        topics += ["", "/", "//", "/////", prefix, prefix + "/", prefix + "//////", "#", "+/+/+/+/+", prefix + "/+/+/3/+/+",
+                   prefix + "/1/255/3/0", prefix + "/1/255/3", prefix + "/1/255", prefix + "/1", prefix + "/x/255/3/0/11",
+                   prefix + "/1/255/3/0/11/extra", "other/1/255/3/0/11", prefix + "/\u00e9/\u6f22/3/0/11"]
+        for flavour in ("sync", "async"):
+            gw, rec = make_real(flavour, prefix, "out")
+            for topic in topics:
+                for payload, qos in (("sketch", 0), ("", 1), ("x;y", 2), ("1", None)):
+                    rec["jobs"].clear()
+                    res.evaluations += 1
+                    try:
+                        gw.tasks.transport.recv(topic, payload, qos)
+                    except Exception as exc:  # noqa: BLE001
+                        res.oracle_failures.append({
+                            "key": {"kind": "mqtt-delivery-raised", "exc": type(exc).__name__},
+                            "replay": {"op": "mqtt-delivery", "prefix": prefix, "flavour": flavour, "topic": topic,
+                                       "payload": payload, "qos": qos},
+                            "what": f"{flavour} MQTT gateway, in_prefix={prefix!r}: the delivery ({topic!r}, {payload!r}, "
+                                    f"qos {qos}) raised {type(exc).__name__}: {exc}"})
+                        break
+                    own = topic.startswith(prefix + "/") and topic[len(prefix) + 1:].count("/") == 4
+                    if rec["jobs"] and not own:
+                        res.oracle_failures.append({
+                            "key": {"kind": "mqtt-delivery-accepted"},
+                            "replay": {"op": "mqtt-delivery", "prefix": prefix, "flavour": flavour, "topic": topic,
+                                       "payload": payload, "qos": qos},
+                            "what": f"{flavour} MQTT gateway, in_prefix={prefix!r}: the delivery on {topic!r} (not the "
+                                    f"prefix plus five levels) was handed to the pump as {rec['jobs'][0]!r}"})
+                        break
+        res.count("mqtt-deliveries:" + (prefix or "(empty prefix)"), len(topics) * 8)
+
+
 def run(tier, seed, driver):
     res = gwfam.run_family("C01", tier, seed, driver, CFG, relevant, extra_oracle=probe_oracle)
     big_image_part(res, tier)
+    mqtt_deliveries_part(res)
     res.rule = ("histories over all versions and the base/TCP/MQTT kinds with 40% malformed next lines (random text, "
                 "truncated frames, 7-field frames, out-of-range headers, valid headers with arbitrary payloads, "
                 "exotic integer spellings) from states that include smart-sleep and OTA sessions, each followed by a "
@@ -153,6 +198,18 @@ def run(tier, seed, driver):
 
 
 def replay(payload):
+    if (payload.get("replay") or {}).get("op") == "mqtt-delivery":
+        from .c17 import make_real
+        r = payload["replay"]
+        gw, rec = make_real(r["flavour"], r["prefix"], "out")
+        try:
+            gw.tasks.transport.recv(r["topic"], r["payload"], r["qos"])
+        except Exception as exc:  # noqa: BLE001
+            print("raised", type(exc).__name__, exc)
+            return 1
+        own = r["topic"].startswith(r["prefix"] + "/") and r["topic"][len(r["prefix"]) + 1:].count("/") == 4
+        print("jobs:", rec["jobs"])
+        return 1 if rec["jobs"] and not own else 0
     if (payload.get("replay") or {}).get("op") == "big-image":
         accepted, raised = big_image(payload["replay"]["size"])
         print("update call returned normally:", accepted, " lines that raised:", raised)
